@@ -5,3 +5,5 @@ import MW.Props.C10
 #print axioms MW.Props.C10.resume_exact
 #print axioms MW.Props.C10.halted_tx_without_effect
 #print axioms MW.Props.C10.halted_hook_without_effect
+#print axioms MW.Props.C10.breaker_tx_exact
+#print axioms MW.Props.C10.resume_tx_exact
